@@ -50,7 +50,7 @@ static hm_last_t hm_last_local, *hm_last = &hm_last_local;
 /* ================================================================== C14 crystal model */
 #define MAXC 700
 #define MAXAT 200
-typedef struct { char name[24]; double cell[6]; int n_atom; Crystal_Atom atom[MAXAT]; } m_crystal;
+typedef struct { char name[48]; double cell[6]; int n_atom; Crystal_Atom atom[MAXAT]; } m_crystal;
 typedef struct { Crystal_Array *arr; int builtin; int cap0; int n; m_crystal *c; int grew; } m_array;
 
 static double m_volume(const double *cell) {
@@ -60,7 +60,10 @@ static double m_volume(const double *cell) {
 static void gen_crystal(xv_rng *r, m_crystal *c, const char *forced_name) {
   static const char al[] = "ABCDEFGHIJKLMNOPQRSTUVWXYZabcdefghijklmnopqrstuvwxyz0123456789_";
   int k, n;
-  if (forced_name) strncpy(c->name, forced_name, 23), c->name[23] = 0;
+  if (forced_name) strncpy(c->name, forced_name, 47), c->name[47] = 0;
+  else if (xv_below(r, 6) == 0) {   /* families of long names that share their first 20+ characters (files cannot express them: %20s) */
+    static const char *fam[] = { "Quartz_alpha_lowtemp_", "LongCrystalNamePrefix__", "abcdefghijklmnopqrst", "Muscovite_2M1_polytype_sample" };
+    int o = snprintf(c->name, sizeof c->name, "%s", fam[xv_below(r, 4)]); n = xv_below(r, 5); for (k = 0; k < n && o < 46; k++) c->name[o++] = al[xv_below(r, 63)]; c->name[o] = 0; }
   else { n = 1 + xv_below(r, 14); for (k = 0; k < n; k++) c->name[k] = al[xv_below(r, k ? 63 : 52)]; c->name[n] = 0; }
   for (;;) {
     double v;
@@ -156,7 +159,7 @@ static void crystal_history(long hno, int maxlen, int builtin, const char *tmpdi
     char **l; int n = 0, k; A.arr = NULL; A.cap0 = CRYSTALARRAY_MAX;
     l = Crystal_GetCrystalsList(NULL, &n, NULL);
     for (k = 0; l && k < n; k++) { Crystal_Struct *s = Crystal_GetCrystal(l[k], NULL, NULL); m_crystal c; memset(&c, 0, sizeof c);
-      if (s) { strncpy(c.name, s->name, 23); c.cell[0] = s->a; c.cell[1] = s->b; c.cell[2] = s->c; c.cell[3] = s->alpha; c.cell[4] = s->beta; c.cell[5] = s->gamma; c.n_atom = s->n_atom; if (s->n_atom > MAXAT) { fprintf(stderr, "histmon: built-in crystal with %d atoms\n", s->n_atom); exit(2); } memcpy(c.atom, s->atom, sizeof(Crystal_Atom) * c.n_atom);
+      if (s) { strncpy(c.name, s->name, 47); c.cell[0] = s->a; c.cell[1] = s->b; c.cell[2] = s->c; c.cell[3] = s->alpha; c.cell[4] = s->beta; c.cell[5] = s->gamma; c.n_atom = s->n_atom; if (s->n_atom > MAXAT) { fprintf(stderr, "histmon: built-in crystal with %d atoms\n", s->n_atom); exit(2); } memcpy(c.atom, s->atom, sizeof(Crystal_Atom) * c.n_atom);
         m_add(&A, &c); Crystal_Free(s); } xrlFree(l[k]); }
     if (l) xrlFree(l);
     TR("builtin;");
@@ -200,9 +203,10 @@ static void crystal_history(long hno, int maxlen, int builtin, const char *tmpdi
       check_array(&A, "null-add");
     } else if (op < 68 && !builtin) {                                       /* ---- crystal files */
       int kind = xv_below(&r, 10), ncr = 1 + xv_below(&r, kind < 5 ? 30 : 6), k, corrupt = 0, badpos = -1, dup = 0; m_crystal *fc = malloc(sizeof(m_crystal) * ncr); FILE *f; int ok = 1;
-      for (k = 0; k < ncr; k++) { int j, clash; do { gen_crystal(&r, &fc[k], NULL); clash = m_find(&A, fc[k].name) >= 0 || fc[k].n_atom == 0; for (j = 0; j < k; j++) if (!strcmp(fc[j].name, fc[k].name)) clash = 1; } while (clash); }
+      for (k = 0; k < ncr; k++) { int j, clash; do { gen_crystal(&r, &fc[k], NULL); clash = m_find(&A, fc[k].name) >= 0 || fc[k].n_atom == 0 || strlen(fc[k].name) > 20; for (j = 0; j < k; j++) if (!strcmp(fc[j].name, fc[k].name)) clash = 1; } while (clash); }
       if (kind >= 5 && kind < 8) { corrupt = 1 + xv_below(&r, 5); badpos = xv_below(&r, ncr); }
-      else if (kind == 8 && A.n) { dup = 1; badpos = xv_below(&r, ncr); strcpy(fc[badpos].name, A.c[xv_below(&r, A.n)].name); }
+      else if (kind == 8 && A.n) { int pick = xv_below(&r, A.n);      /* a file can only name an existing crystal whose name fits its 20-character field */
+        if (strlen(A.c[pick].name) <= 20) { dup = 1; badpos = xv_below(&r, ncr); strcpy(fc[badpos].name, A.c[pick].name); } }
       else if (kind == 9) { corrupt = 6; }                                   /* truncated mid-definition */
       snprintf(path, sizeof path, "%s/h%ld_s%d.dat", tmpdir, hno, step);
       f = fopen(path, "w"); if (!f) { fprintf(stderr, "histmon: cannot write %s\n", path); exit(2); }
